@@ -12,16 +12,19 @@ entered; `ok` iff every command ran and succeeded).
 * `C04_full` — for every history, "up to date" implies `goodRun`.  **False** in several
   independent ways, each a `decide`-checked run of the executable model (which mirrors the tree
   with the timestamp fixes TS1–TS3, fix M and fix N): `C04_counterexample_kill` (4, both methods:
-  `_kill_timestamp`), `_listjson` (6, for the wiring as found — repaired by F7), `_equal_labels`
-  (what is left of 7: method checksum names its state file after `t.Name()`, the label), and what is
+  `_kill_timestamp`), `_listjson` (6, for the wiring as found — repaired by F7), and what is
   LEFT of method timestamp's defects: `_timestamp_never_ran`, `_timestamp_failed_generates` /
   `_timestamp_forced_fail_generates` (a failed run that left a `generates` file behind),
   `_timestamp_generates_by_others` — one root: with method timestamp an existing `generates` file
   at least as new as every source makes the task up to date, whatever happened to its last attempt.
 * (7) REPAIRED by fix N for names that merely normalise alike (`a:b` / `a-b` / `a.b`):
-  `stateKey_inj` (TsLemmas), `C04_collision_fixed`; the hypothesis of `C04_partial` shrinks from
-  "distinct normalised names" to `DisplayDistinct` (distinct `t.Name()` among the checksum tasks),
-  that of `C04_partial_timestamp` to `NamesDistinct` (true of every table).
+  `stateKey_inj` (KeyLemmas), `C04_collision_fixed`; and, what was left of it, by fix F8A for EQUAL
+  LABELS (method checksum named its file after `t.Name()`, the label): the checksum state belongs to
+  the pair (task name, label) — `sumKey`, `sumKey_inj` (equal keys ⇒ equal task names and labels),
+  `C04_equal_labels_fixed` (the two former witnesses; `C04_equal_labels_old_rule`: what the old key
+  did).  The hypothesis of `C04_partial` shrank from "distinct normalised names" over "distinct
+  `t.Name()`" to `NamesDistinct` — distinct TASK names, true of every table the loader produces —
+  which is also all `C04_partial_timestamp` needs.
 * (3) a declined prompt is REPAIRED for both methods (F31: it goes through `statusOnError`; TS3:
   `TimestampChecker.OnError` removes the marker): `C04_prompt_declined_no_entry` /
   `C04_timestamp_declined_no_marker` (the declined run leaves no checksum entry / no marker and
@@ -36,7 +39,7 @@ entered; `ok` iff every command ran and succeeded).
   with an mtime after the marker — the last run, `C04_timestamp_marker_is_last_run` — if there is
   one, and after every generates file, is rebuilt), `C04_timestamp_marker_moves_fixed`,
   `C04_timestamp_marker_created_fixed`.
-* `C04_partial` — method checksum, `DisplayDistinct`, histories of ANY length
+* `C04_partial` — method checksum, `NamesDistinct`, histories of ANY length
   made of arbitrary file operations, successful runs, runs failing inside the command loop, runs
   and `--force` runs CANCELLED AT THE PROMPT, `--force`, `--dry`, `--status`,
   `--list[-all] [--json]`, `--summary` (no kill): skip ⇒ goodRun.  Invariant: "stored checksum
@@ -56,7 +59,7 @@ open TaskModel.Finger
 
 /-- the property, for a given wiring -/
 def C04_full (cfg : Cfg) : Prop :=
-  ∀ (H : Bytes → Bytes) (pr : Proj) (hist : List Step) (i : Nat) (t : Task) (e : Env),
+  ∀ (H : Hashes) (pr : Proj) (hist : List Step) (i : Nat) (t : Task) (e : Env),
     pr.tasks[i]? = some t → t.sources.isEmpty = false →
     (invoke cfg H pr i .run e (runHist cfg H pr hist State.empty).1).2.skipped = true →
     goodRun H pr i t (runHist cfg H pr hist State.empty).1 = true
@@ -74,8 +77,8 @@ private def run (i n : Nat) : Step := .inv i .run (env n)
 /-- a history after which task `i` is skipped although `goodRun` fails -/
 def Bad (cfg : Cfg) (pr : Proj) (hist : List Step) (i : Nat) (t : Task) : Prop :=
   pr.tasks[i]? = some t ∧ t.sources.isEmpty = false ∧
-  (invoke cfg id pr i .run (env 99) (runHist cfg id pr hist State.empty).1).2.skipped = true ∧
-  goodRun id pr i t (runHist cfg id pr hist State.empty).1 = false
+  (invoke cfg hId pr i .run (env 99) (runHist cfg hId pr hist State.empty).1).2.skipped = true ∧
+  goodRun hId pr i t (runHist cfg hId pr hist State.empty).1 = false
 
 instance (cfg : Cfg) (pr : Proj) (hist : List Step) (i : Nat) (t : Task) : Decidable (Bad cfg pr hist i t) := by
   unfold Bad; infer_instance
@@ -126,16 +129,23 @@ theorem C04_collision_fixed :
     oldKey (mk [97, 45, 98] .checksum false 1).displayName = oldKey (mk [97, 58, 98] .checksum false 1).displayName := by
   decide
 
-/-- (7, what is left) method checksum keys the state by `t.Name()` — the LABEL when there is one:
-two tasks with the same label, or a task whose label is another task's name, still share one
-checksum file (method timestamp keys by the task name, which is unique). -/
-theorem C04_counterexample_equal_labels :
+/-- (7, the rest — REPAIRED by fix F8A) method checksum keyed the state by `t.Name()` — the LABEL
+when there is one — so two tasks with the same label, or a task whose label is another task's name,
+shared one checksum file.  The key is now a function of the pair (task name, label): the two former
+witnesses — running `a` made `b` up to date — are no longer bad, and the keys differ. -/
+theorem C04_equal_labels_fixed :
     (let a : Task := { mk [120] .checksum false 1 with label := [76] }
      let b : Task := { mk [121] .checksum false 1 with label := [76] }
-     Bad Cfg.fixed (pj [a, b]) [w0, run 0 10] 1 b) ∧
+     ¬ Bad Cfg.fixed (pj [a, b]) [w0, run 0 10] 1 b ∧ sumKey a ≠ sumKey b) ∧
     (let a : Task := mk [120] .checksum false 1
      let b : Task := { mk [121] .checksum false 1 with label := [120] }
-     Bad Cfg.fixed (pj [a, b]) [w0, run 0 10] 1 b) := by decide
+     ¬ Bad Cfg.fixed (pj [a, b]) [w0, run 0 10] 1 b ∧ sumKey a ≠ sumKey b) := by decide
+
+/-- the rule before fix F8A (`oldSumKey` = `stateFilename(t.Name())`: an OLD-RULE fact, not true of
+the tree any more) gave both pairs ONE key -/
+theorem C04_equal_labels_old_rule :
+    oldSumKey { mk [120] .checksum false 1 with label := [76] } = oldSumKey { mk [121] .checksum false 1 with label := [76] } ∧
+    oldSumKey (mk [120] .checksum false 1) = oldSumKey { mk [121] .checksum false 1 with label := [120] } := by decide
 
 /- method timestamp with a `generates` entry: path 1, written by the first of two commands -/
 private def tg : Task := { mk [120] .timestamp false 1 with generates := [⟨false, [1]⟩], cmds := [⟨[(1, [9])], none⟩] }
@@ -171,7 +181,7 @@ one: the source written with mtime 15 is compared with the generates file (10) a
 the former witness is no longer bad, and no marker exists after the up-to-date check. -/
 theorem C04_timestamp_marker_created_fixed :
     ¬ Bad Cfg.fixed (pj [tg]) [w0, .inv 0 .force (env 10), run 0 20, .op (.write 0 [2] 15)] 0 tg ∧
-    (runHist Cfg.fixed id (pj [tg]) [w0, .inv 0 .force (env 10), run 0 20] State.empty).1.marks = [] := by decide
+    (runHist Cfg.fixed hId (pj [tg]) [w0, .inv 0 .force (env 10), run 0 20] State.empty).1.marks = [] := by decide
 
 /-- (open, same root) the generates file is rewritten by something else (another task, an editor)
 after the source was edited. -/
@@ -181,31 +191,31 @@ theorem C04_counterexample_timestamp_generates_by_others :
 theorem C04_full_false : ¬ C04_full Cfg.fixed := by
   intro h
   have hb := C04_counterexample_kill
-  have := h id _ _ 0 _ (env 99) hb.1 hb.2.1 hb.2.2.1
+  have := h hId _ _ 0 _ (env 99) hb.1 hb.2.1 hb.2.2.1
   rw [hb.2.2.2] at this
   cases this
 
 /-! ## The partial theorem -/
 
 section
-variable (H : Bytes → Bytes) (pr : Proj)
+variable (H : Hashes) (pr : Proj)
 
 /-- pairwise distinct checksum file names among the checksum tasks -/
 def KeysDistinct (pr : Proj) : Prop :=
   ∀ (i j : Nat) (ti tj : Task), pr.tasks[i]? = some ti → pr.tasks[j]? = some tj → Cs ti → Cs tj →
     sumKey ti = sumKey tj → i = j
 
-/-- **what is left of the hypothesis after fix N**: the checksum tasks have pairwise distinct
-DISPLAY names (`t.Name()`: the label, else the task name).  Task names are distinct in every table;
-this fails only when two checksum tasks carry the same label, or one's label is the other's name
-(`C04_counterexample_equal_labels`).  Distinct display names that merely NORMALISE alike (`a:b`,
-`a-b`, `a.b`) are fine now. -/
-def DisplayDistinct (pr : Proj) : Prop :=
-  ∀ (i j : Nat) (ti tj : Task), pr.tasks[i]? = some ti → pr.tasks[j]? = some tj → Cs ti → Cs tj →
-    ti.displayName = tj.displayName → i = j
+/-- the task names of the table are pairwise distinct — true of every table the loader produces (a
+second definition of a name is a load error, C08).  It is ALL that is left of the hypothesis of
+`C04_partial` after fix N (names that merely normalise alike have distinct files) and fix F8A (the
+checksum file is a function of task name AND label: equal labels, or a label equal to another
+task's name, no longer share a file), and all that is left of `TsKeysDistinct`: the marker is named
+after the task name, and `stateKey` is injective -/
+def NamesDistinct (pr : Proj) : Prop :=
+  ∀ (i j : Nat) (ti tj : Task), pr.tasks[i]? = some ti → pr.tasks[j]? = some tj → ti.name = tj.name → i = j
 
-theorem keysDistinct_of_display {pr : Proj} (h : DisplayDistinct pr) : KeysDistinct pr :=
-  fun i j ti tj hi hj ci cj hk => h i j ti tj hi hj ci cj (sumKey_inj hk)
+theorem keysDistinct_of_names {pr : Proj} (h : NamesDistinct pr) : KeysDistinct pr :=
+  fun i j ti tj hi hj _ _ hk => h i j ti tj hi hj (sumKey_inj hk).1
 
 /-- steps of the histories covered: any file operation; any invocation (every mode, prompt
 answered yes or declined, any command failing) during which the process is not killed -/
@@ -388,17 +398,17 @@ theorem inv_hist (hd : KeysDistinct pr) (hist : List Step) (s : State) (ha : ∀
     simp only [runHist]
     exact ih _ (fun x hx => ha x (by simp [hx])) (inv_step H pr hd st s (ha st (by simp)) hinv)
 
-/-- **C04_partial**: for a task fingerprinted with method checksum, in a project whose checksum tasks
-have pairwise distinct display names (since fix N they need not normalise differently: `a:b`, `a-b`
-and `a.b` have three state files), after ANY history of allowed steps (no bound on its length;
+/-- **C04_partial**: for a task fingerprinted with method checksum, in a project whose tasks have
+pairwise distinct names — every project; labels may coincide with each other and with task names
+(fix F8A), names may normalise alike (fix N) —, after ANY history of allowed steps (no bound on its length;
 since F31 this includes runs cancelled at the prompt): if a run reports the task up to date then
 `goodRun` holds. -/
-theorem C04_partial (hd : DisplayDistinct pr) (hist : List Step) (ha : ∀ st ∈ hist, Allowed st)
+theorem C04_partial (hd : NamesDistinct pr) (hist : List Step) (ha : ∀ st ∈ hist, Allowed st)
     (i : Nat) (t : Task) (e : Env) (ht : pr.tasks[i]? = some t) (hm : t.method = .checksum)
     (hsrc : t.sources.isEmpty = false)
     (hskip : (invoke Cfg.fixed H pr i .run e (runHist Cfg.fixed H pr hist State.empty).1).2.skipped = true) :
     goodRun H pr i t (runHist Cfg.fixed H pr hist State.empty).1 = true := by
-  have hinv := inv_hist H pr (keysDistinct_of_display hd) hist State.empty ha (inv_empty pr)
+  have hinv := inv_hist H pr (keysDistinct_of_names hd) hist State.empty ha (inv_empty pr)
   generalize (runHist Cfg.fixed H pr hist State.empty).1 = s at *
   have hup := run_skipped Cfg.fixed H pr ht e s hskip
   rw [isUpToDate_sources H pr hsrc] at hup
@@ -608,12 +618,6 @@ theorem C04_timestamp_edit_after_checks_detected (cfg : Cfg) {i : Nat} {t : Task
 def TsKeysDistinct (pr : Proj) : Prop :=
   ∀ (i j : Nat) (ti tj : Task), pr.tasks[i]? = some ti → pr.tasks[j]? = some tj → Ts ti → Ts tj →
     tsKey ti = tsKey tj → i = j
-
-/-- the task names of the table are pairwise distinct — true of every table the loader produces (a
-second definition of a name is a load error, C08); it is all that is left of `TsKeysDistinct`
-after fix N: the marker is named after the task name, and `stateKey` is injective -/
-def NamesDistinct (pr : Proj) : Prop :=
-  ∀ (i j : Nat) (ti tj : Task), pr.tasks[i]? = some ti → pr.tasks[j]? = some tj → ti.name = tj.name → i = j
 
 theorem tsKeysDistinct_of_names {pr : Proj} (h : NamesDistinct pr) : TsKeysDistinct pr :=
   fun i j ti tj hi hj _ _ hk => h i j ti tj hi hj (tsKey_inj hk)
@@ -838,8 +842,8 @@ example :
     let hist : List Step := [w0, .inv 0 .run { env 10 with failAt := some 1 }, .inv 0 .dry (env 20), .inv 0 .status (env 30),
       .inv 0 .listJson (env 40), .inv 1 .run { env 45 with yes := false }, run 0 50, .inv 1 .force (env 60), .op (.touch 0 70)]
     (∀ st ∈ hist, Allowed st) ∧
-    (invoke Cfg.fixed id pr 0 .run (env 99) (runHist Cfg.fixed id pr hist State.empty).1).2.skipped = true ∧
-    goodRun id pr 0 t (runHist Cfg.fixed id pr hist State.empty).1 = true := by
+    (invoke Cfg.fixed hId pr 0 .run (env 99) (runHist Cfg.fixed hId pr hist State.empty).1).2.skipped = true ∧
+    goodRun hId pr 0 t (runHist Cfg.fixed hId pr hist State.empty).1 = true := by
   refine ⟨?_, by decide, by decide⟩
   intro st hst
   simp only [List.mem_cons, List.not_mem_nil, or_false] at hst
@@ -850,26 +854,41 @@ the checksum (it is not up to date), and the task of the example is a checksum t
 example :
     let t := mk [120] .checksum true 1
     let e : Env := { env 10 with yes := false }
-    let s := (runHist Cfg.fixed id (pj [t]) [w0] State.empty).1
-    Cs t ∧ Declined t e ∧ (invoke Cfg.fixed id (pj [t]) 0 .run e s).2.skipped = false ∧
-    (isUpToDate id (pj [t]) t false 10 s).1.sums ≠ [] ∧ (invoke Cfg.fixed id (pj [t]) 0 .run e s).1.sums = [] := by decide
+    let s := (runHist Cfg.fixed hId (pj [t]) [w0] State.empty).1
+    Cs t ∧ Declined t e ∧ (invoke Cfg.fixed hId (pj [t]) 0 .run e s).2.skipped = false ∧
+    (isUpToDate hId (pj [t]) t false 10 s).1.sums ≠ [] ∧ (invoke Cfg.fixed hId (pj [t]) 0 .run e s).1.sums = [] := by decide
 
-/-- the hypothesis left after fix N holds of the project of the example: `a-b` and `a:b` — which
-NORMALISE to one name and shared one checksum file before the fix — have distinct display names -/
-example : DisplayDistinct (pj [mk [97, 45, 98] .checksum false 2, mk [97, 58, 98] .checksum true 1]) := by
-  intro i j ti tj hi hj _ _ hk
-  match i, j with
-  | 0, 0 => rfl
-  | 1, 1 => rfl
-  | 0, 1 => simp [pj] at hi hj; subst hi hj; simp [mk, Task.displayName] at hk
-  | 1, 0 => simp [pj] at hi hj; subst hi hj; simp [mk, Task.displayName] at hk
-  | i + 2, _ => simp [pj] at hi
-  | 0, j + 2 => simp [pj] at hj
-  | 1, j + 2 => simp [pj] at hj
+/-- the hypothesis left after fix N and fix F8A holds of the project of the example — `a-b` and
+`a:b`, which NORMALISE to one name — and of a project whose two checksum tasks carry the SAME label
+(`L`), which shared one checksum file before F8A: only the task names have to differ … -/
+example : NamesDistinct (pj [mk [97, 45, 98] .checksum false 2, mk [97, 58, 98] .checksum true 1]) ∧
+    NamesDistinct (pj [{ mk [120] .checksum false 1 with label := [76] }, { mk [121] .checksum false 1 with label := [76] }]) := by
+  constructor <;>
+  · intro i j ti tj hi hj hk
+    match i, j with
+    | 0, 0 => rfl
+    | 1, 1 => rfl
+    | 0, 1 => simp [pj] at hi hj; subst hi hj; simp [mk] at hk
+    | 1, 0 => simp [pj] at hi hj; subst hi hj; simp [mk] at hk
+    | i + 2, _ => simp [pj] at hi
+    | 0, j + 2 => simp [pj] at hj
+    | 1, j + 2 => simp [pj] at hj
+
+/-- … and `C04_partial` is not vacuous there: with equal labels, after `x` ran, `y` is NOT skipped;
+after `y` ran too, both are skipped and `goodRun` holds of both -/
+example :
+    let x : Task := { mk [120] .checksum false 1 with label := [76] }
+    let y : Task := { mk [121] .checksum false 1 with label := [76] }
+    let pr := pj [x, y]
+    (invoke Cfg.fixed hId pr 1 .run (env 99) (runHist Cfg.fixed hId pr [w0, run 0 10] State.empty).1).2.skipped = false ∧
+    (invoke Cfg.fixed hId pr 1 .run (env 99) (runHist Cfg.fixed hId pr [w0, run 0 10, run 1 20] State.empty).1).2.skipped = true ∧
+    goodRun hId pr 1 y (runHist Cfg.fixed hId pr [w0, run 0 10, run 1 20] State.empty).1 = true ∧
+    (invoke Cfg.fixed hId pr 0 .run (env 99) (runHist Cfg.fixed hId pr [w0, run 0 10, run 1 20] State.empty).1).2.skipped = true := by
+  decide
 
 /-- the statement of `C04_partial_timestamp` WITHOUT the side condition on `generates` -/
 def C04_timestamp_with_generates : Prop :=
-  ∀ (H : Bytes → Bytes) (pr : Proj), NamesDistinct pr → ∀ (hist : List Step), (∀ st ∈ hist, Allowed st) → ClockOK 0 hist →
+  ∀ (H : Hashes) (pr : Proj), NamesDistinct pr → ∀ (hist : List Step), (∀ st ∈ hist, Allowed st) → ClockOK 0 hist →
     ∀ (i : Nat) (t : Task) (e : Env), pr.tasks[i]? = some t → t.method = .timestamp → t.sources.isEmpty = false →
       (invoke Cfg.fixed H pr i .run e (runHist Cfg.fixed H pr hist State.empty).1).2.skipped = true →
       goodRun H pr i t (runHist Cfg.fixed H pr hist State.empty).1 = true
@@ -884,7 +903,7 @@ theorem C04_timestamp_with_generates_false : ¬ C04_timestamp_with_generates := 
     | 0, 0 => rfl
     | i + 1, _ => simp [pj] at hi
     | 0, j + 1 => simp [pj] at hj
-  have := h id (pj [tg]) hd [w0, .op (.write 1 [8] 7)] (by intro st hst; simp at hst; rcases hst with h | h <;> subst h <;> simp [Allowed, w0])
+  have := h hId (pj [tg]) hd [w0, .op (.write 1 [8] 7)] (by intro st hst; simp at hst; rcases hst with h | h <;> subst h <;> simp [Allowed, w0])
     (by decide) 0 tg (env 99) hb.1 (by decide) hb.2.1 hb.2.2.1
   rw [hb.2.2.2] at this
   cases this
@@ -896,27 +915,27 @@ removes it again, and (no generates file) the next run is not skipped -/
 example :
     let t := mk [120] .timestamp true 1
     let e : Env := { env 10 with yes := false }
-    let s := (runHist Cfg.fixed id (pj [t]) [w0] State.empty).1
-    Ts t ∧ Declined t e ∧ (invoke Cfg.fixed id (pj [t]) 0 .run e s).2.skipped = false ∧
-    (isUpToDate id (pj [t]) t false 10 s).1.marks ≠ [] ∧ (invoke Cfg.fixed id (pj [t]) 0 .run e s).1.marks = [] ∧
+    let s := (runHist Cfg.fixed hId (pj [t]) [w0] State.empty).1
+    Ts t ∧ Declined t e ∧ (invoke Cfg.fixed hId (pj [t]) 0 .run e s).2.skipped = false ∧
+    (isUpToDate hId (pj [t]) t false 10 s).1.marks ≠ [] ∧ (invoke Cfg.fixed hId (pj [t]) 0 .run e s).1.marks = [] ∧
     globs (nowPats t.generates s.files) = [] ∧
-    (invoke Cfg.fixed id (pj [t]) 0 .run (env 20) (invoke Cfg.fixed id (pj [t]) 0 .run e s).1).2.ran = [0] := by decide
+    (invoke Cfg.fixed hId (pj [t]) 0 .run (env 20) (invoke Cfg.fixed hId (pj [t]) 0 .run e s).1).2.ran = [0] := by decide
 
 /-- failed run / failed `--force` run: exit `failed`, a marker (of an earlier successful run) is there
 before and gone afterwards -/
 example :
     let t := mk [120] .timestamp false 1
-    let s := (runHist Cfg.fixed id (pj [t]) [w0, run 0 10, .op (.touch 0 15)] State.empty).1
+    let s := (runHist Cfg.fixed hId (pj [t]) [w0, run 0 10, .op (.touch 0 15)] State.empty).1
     let ef : Env := { env 20 with failAt := some 0 }
     Ts t ∧ aget s.marks (tsKey t) = some 10 ∧
-    (invoke Cfg.fixed id (pj [t]) 0 .run ef s).2.exit = .failed ∧ (invoke Cfg.fixed id (pj [t]) 0 .run ef s).1.marks = [] ∧
-    (invoke Cfg.fixed id (pj [t]) 0 .force ef s).2.exit = .failed ∧ (invoke Cfg.fixed id (pj [t]) 0 .force ef s).1.marks = [] := by
+    (invoke Cfg.fixed hId (pj [t]) 0 .run ef s).2.exit = .failed ∧ (invoke Cfg.fixed hId (pj [t]) 0 .run ef s).1.marks = [] ∧
+    (invoke Cfg.fixed hId (pj [t]) 0 .force ef s).2.exit = .failed ∧ (invoke Cfg.fixed hId (pj [t]) 0 .force ef s).1.marks = [] := by
   decide
 
 /-- without a marker a skip needs generates: the never-ran witness meets the hypotheses -/
 example :
-    let s := (runHist Cfg.fixed id (pj [tg]) [w0, .op (.write 1 [8] 7)] State.empty).1
-    Ts tg ∧ aget s.marks (tsKey tg) = none ∧ (invoke Cfg.fixed id (pj [tg]) 0 .run (env 99) s).2.skipped = true ∧
+    let s := (runHist Cfg.fixed hId (pj [tg]) [w0, .op (.write 1 [8] 7)] State.empty).1
+    Ts tg ∧ aget s.marks (tsKey tg) = none ∧ (invoke Cfg.fixed hId (pj [tg]) 0 .run (env 99) s).2.skipped = true ∧
     globs (nowPats tg.generates s.files) = [1] := by decide
 
 /-- the up-to-date checks and the edit: marker 10 after the run at 10; two runs (20, 30) are reported
@@ -924,16 +943,16 @@ up to date and change nothing; the source is then written with mtime 25 (> 10, n
 generates file written at 10) and the run at 40 executes the command.  `marker_is_last_run`: the
 run at 10 was asked for by the timestamp check. -/
 example :
-    let s0 := (runHist Cfg.fixed id (pj [tg]) [w0] State.empty).1
-    let s := (invoke Cfg.fixed id (pj [tg]) 0 .run (env 10) s0).1
-    Ts tg ∧ tsUp tg s0 = false ∧ (invoke Cfg.fixed id (pj [tg]) 0 .run (env 10) s0).2.exit = .ok ∧
+    let s0 := (runHist Cfg.fixed hId (pj [tg]) [w0] State.empty).1
+    let s := (invoke Cfg.fixed hId (pj [tg]) 0 .run (env 10) s0).1
+    Ts tg ∧ tsUp tg s0 = false ∧ (invoke Cfg.fixed hId (pj [tg]) 0 .run (env 10) s0).2.exit = .ok ∧
     aget s.marks (tsKey tg) = some 10 ∧
-    AllSkipped (runHist Cfg.fixed id (pj [tg]) (checks 0 [env 20, env 30]) s).2 ∧
-    (runHist Cfg.fixed id (pj [tg]) (checks 0 [env 20, env 30]) s).1 = s ∧
+    AllSkipped (runHist Cfg.fixed hId (pj [tg]) (checks 0 [env 20, env 30]) s).2 ∧
+    (runHist Cfg.fixed hId (pj [tg]) (checks 0 [env 20, env 30]) s).1 = s ∧
     lastFlag tg.sources 0 = some true ∧
     (∀ g ∈ globs (nowPats tg.generates (aset s.files 0 ⟨[2], 25⟩)), mtimeOf (aset s.files 0 ⟨[2], 25⟩) g < 25) ∧
-    (invoke Cfg.fixed id (pj [tg]) 0 .run (env 40)
-      (applyOp (pj [tg]) (.write 0 [2] 25) (runHist Cfg.fixed id (pj [tg]) (checks 0 [env 20, env 30]) s).1)).2.ran = [0] := by
+    (invoke Cfg.fixed hId (pj [tg]) 0 .run (env 40)
+      (applyOp (pj [tg]) (.write 0 [2] 25) (runHist Cfg.fixed hId (pj [tg]) (checks 0 [env 20, env 30]) s).1)).2.ran = [0] := by
   decide
 
 /-- `C04_partial_timestamp`: a history using every allowed kind of step on a project with a checksum
@@ -946,8 +965,8 @@ example :
       .inv 0 .listJson (env 40), .inv 1 .run { env 45 with yes := false }, run 0 50, .inv 1 .force (env 60), run 2 65,
       .inv 0 .force (env 70), .op (.touch 0 45)]
     (∀ st ∈ hist, Allowed st) ∧ ClockOK 0 hist ∧ NoPosGenerates t ∧ Ts t ∧
-    (invoke Cfg.fixed id pr 0 .run (env 99) (runHist Cfg.fixed id pr hist State.empty).1).2.skipped = true ∧
-    goodRun id pr 0 t (runHist Cfg.fixed id pr hist State.empty).1 = true := by
+    (invoke Cfg.fixed hId pr 0 .run (env 99) (runHist Cfg.fixed hId pr hist State.empty).1).2.skipped = true ∧
+    goodRun hId pr 0 t (runHist Cfg.fixed hId pr hist State.empty).1 = true := by
   refine ⟨?_, by decide, by decide, by decide, by decide, by decide⟩
   intro st hst
   simp only [List.mem_cons, List.not_mem_nil, or_false] at hst
@@ -973,13 +992,13 @@ example : NamesDistinct (pj [mk [120] .timestamp false 2, mk [121] .timestamp tr
 /-- `C04_partial_timestamp_general` on a task WITH generates: the history of the never-ran witness
 ends in a skip without `goodRun`, and `GenNewer` holds (no marker, the generates file exists) -/
 example :
-    (invoke Cfg.fixed id (pj [tg]) 0 .run (env 99)
-      (runHist Cfg.fixed id (pj [tg]) [w0, .op (.write 1 [8] 7)] State.empty).1).2.skipped = true ∧
-    goodRun id (pj [tg]) 0 tg (runHist Cfg.fixed id (pj [tg]) [w0, .op (.write 1 [8] 7)] State.empty).1 = false ∧
-    GenNewer tg (runHist Cfg.fixed id (pj [tg]) [w0, .op (.write 1 [8] 7)] State.empty).1 := by
+    (invoke Cfg.fixed hId (pj [tg]) 0 .run (env 99)
+      (runHist Cfg.fixed hId (pj [tg]) [w0, .op (.write 1 [8] 7)] State.empty).1).2.skipped = true ∧
+    goodRun hId (pj [tg]) 0 tg (runHist Cfg.fixed hId (pj [tg]) [w0, .op (.write 1 [8] 7)] State.empty).1 = false ∧
+    GenNewer tg (runHist Cfg.fixed hId (pj [tg]) [w0, .op (.write 1 [8] 7)] State.empty).1 := by
   refine ⟨by decide, by decide, 1, by decide, ?_⟩
   intro m hm
-  have h0 : aget (runHist Cfg.fixed id (pj [tg]) [w0, .op (.write 1 [8] 7)] State.empty).1.marks (tsKey tg) = none := by
+  have h0 : aget (runHist Cfg.fixed hId (pj [tg]) [w0, .op (.write 1 [8] 7)] State.empty).1.marks (tsKey tg) = none := by
     decide
   rw [h0] at hm; cases hm
 
